@@ -40,6 +40,10 @@ impl Encoder {
     /// lookup the Abstraction for a given Game. convert
     /// ( Game -> Observation -> Isomorphism ) -> Abstraction
     pub fn abstraction(&self, game: &Game) -> Abstraction {
+        #[cfg(robopoker_verif)]
+        if self.0.is_empty() {
+            return Self::verif_standin(game);
+        }
         self.0
             .get(&Isomorphism::from(game.sweat()))
             .cloned()
@@ -74,6 +78,18 @@ impl Encoder {
     #[allow(unused)]
     fn replay(&self, recall: &Recall) -> Tree {
         todo!("maybe useful during test-time search?")
+    }
+}
+
+#[cfg(robopoker_verif)]
+impl Encoder {
+    /// verification hook: with an empty lookup table, a stand-in abstraction is used: a fixed function of the
+    /// canonical observation (the actor's own cards and the board) into a few buckets of the street's range
+    pub fn verif_standin(game: &Game) -> Abstraction {
+        let obs = game.sweat();
+        let code = i64::from(Isomorphism::from(obs)) as u64;
+        let hash = code.wrapping_mul(0x9E3779B97F4A7C15) >> 40;
+        Abstraction::from((obs.street(), (hash % 6) as usize))
     }
 }
 
